@@ -118,6 +118,9 @@ pub enum ValSizes {
     Mixed,
     /// Mixed plus occasional 64 KiB .. 1 MiB
     Huge,
+    /// every value between 9 KB and 40 KB (several write calls per entry, merges that fill
+    /// large buffers)
+    Big,
 }
 
 pub fn val_strategy(sizes: ValSizes) -> BoxedStrategy<ValSpec> {
@@ -136,6 +139,11 @@ pub fn val_strategy(sizes: ValSizes) -> BoxedStrategy<ValSpec> {
             3 => 8100u32..8200,
             2 => 8200u32..20000,
             1 => 20000u32..40000,
+        ]
+        .boxed(),
+        ValSizes::Big => prop_oneof![
+            3 => 9000u32..20000,
+            3 => 20000u32..40000,
         ]
         .boxed(),
         ValSizes::Huge => prop_oneof![
